@@ -15,6 +15,7 @@ LEVEL_TEXT = ("Invariant analysis of the only mutators (MIR): dense creation-ord
               "panic site in graph.rs / variables.rs; references cannot be forged (private fields).")
 LEVEL_NOTE = ("Not decided: model equivalence over all operation histories (≤ 200 operations) — a refinement proof or model-based test, not a "
               "shape fact.  The check establishes the representation invariants that make the model hold.")
+LEVEL_TEXT += (' (E5.var) VariableMap::add refuses every second definition and set writes mutable bindings only; (C17.read/C17.get) read accessors expose the containers as stored and lookups have the recorded own-map-then-context shape.')
 
 WITNESSES = ["W2"]
 
